@@ -3,6 +3,7 @@ package checks
 import (
 	"encoding/json"
 	"fmt"
+	"github.com/syndtr/goleveldb/leveldb/opt"
 	"sort"
 	"strings"
 
@@ -314,6 +315,13 @@ func c04ConcExtra(w *harness.World, cr *concRun) {
 	for _, d := range cr.Dur {
 		posSet[d.AckPos] = true
 	}
+	if cr.P != nil && cr.P.CrashAll {
+		for i := cr.WinPos; i < len(ops); i++ {
+			if ops[i].Kind.Mutating() {
+				posSet[i+1] = true
+			}
+		}
+	}
 	var poss []int
 	for p := range posSet {
 		poss = append(poss, p)
@@ -417,13 +425,34 @@ func c04ConcExtra(w *harness.World, cr *concRun) {
 					break
 				}
 			}
-			w2.DB.Close()
+			// the recovered DB is a working one: a synced write made now survives a plain reopen
+			if len(cr.Viol) == 0 {
+				if err := w2.DB.Put([]byte("zz"), []byte("after-recovery"), &opt.WriteOptions{Sync: true}); err != nil {
+					cr.Viol = append(cr.Viol, fmt.Sprintf("crash at storage op %d (%s): Put after recovery: %v", p, v.String(), err))
+				}
+				w2.DB.Close()
+				w2.DB = nil
+				if len(cr.Viol) == 0 {
+					if err := w2.Open(); err != nil {
+						cr.Viol = append(cr.Viol, fmt.Sprintf("crash at storage op %d (%s): reopen after recovery and one write failed: %v", p, v.String(), err))
+					} else {
+						if got, err := w2.DB.Get([]byte("zz"), nil); err != nil || string(got) != "after-recovery" {
+							cr.Viol = append(cr.Viol, fmt.Sprintf("crash at storage op %d (%s): a synced write made after recovery is gone after a plain reopen: Get = %q, %v", p, v.String(), got, err))
+						}
+						w2.DB.Close()
+						w2.DB = nil
+					}
+				}
+			} else {
+				w2.DB.Close()
+			}
 			if len(cr.Viol) > 0 {
 				return
 			}
 		}
 	}
 	cr.Descr = append(cr.Descr, fmt.Sprintf("images=%d", len(seen)))
+	cr.Aux = len(seen)
 }
 
 func c04ConcDrivers() []concParams {
@@ -435,6 +464,10 @@ func c04ConcDrivers() []concParams {
 		{Name: "mixed-no-merge", Cfg: "roomy/bytewise", NoMerge: true, Clients: [][]string{{"put:a"}, {"Sput:b"}, {"put:b"}}, QB: 2, TB: 3, Expect: "noerr"},
 		{Name: "mixed-with-rotation", Cfg: "flushy/bytewise", Clients: [][]string{{"Sput:a"}, {"put:b"}, {"Sput:a"}}, QB: 1, TB: 2, Expect: "noerr"},
 		{Name: "overflow-handoff-mixed", Cfg: "wide/bytewise", Clients: [][]string{{"put:a"}, {"SputL:b"}, {"Sput:a"}}, QB: 2, TB: 3, Expect: "noerr"},
+		// a crash at every storage operation while a manual compaction (and the flushes and
+		// automatic compactions the writers cause) runs next to sync writers
+		{Name: "sync-writer-vs-compactrange", Cfg: "flushy/bytewise", Pre: []string{"Sput:a", "Sput:b", "q"}, Clients: [][]string{{"Sput:a", "Sput:c"}, {"cr"}}, QB: 1, TB: 2, Expect: "noerr", CrashAll: true},
+		{Name: "sync-writers-vs-table-compaction", Cfg: "deep/bytewise", Pre: []string{"Sput:a", "Sput:b", "q"}, Clients: [][]string{{"Sput:b", "Sdel:a"}, {"Sput:c"}}, QB: 1, TB: 2, Expect: "noerr", CrashAll: true},
 		{Name: "transaction-vs-sync-writer", Cfg: "bigbatch/bytewise", Pre: []string{"put:a"}, Clients: [][]string{{"tr:+a,+b"}, {"Sput:a"}}, QB: 1, TB: 2, Expect: "noerr"},
 	}
 }
